@@ -162,6 +162,8 @@ MUTANTS = [
     (_DM, "DMRG.sweep", "        if canonize:\n            {", "        if not canonize:\n            {", "expect-fail"),
     (_DM, "DMRG.sweep", "self._update_local_state(i, direction=direction, **update_opts)", "self._update_local_state(i, direction=direction)", "expect-fail"),
     (_DM, "DMRG.sweep", "self._update_local_state(i, direction=direction, **update_opts)", "self._update_local_state(n - bsz - i, direction=direction, **update_opts)", "expect-fail"),
+    (_DM, "DMRG.sweep", "self._update_local_state(i, direction=direction, **update_opts)", "self._update_local_state(i, direction=direction, **{**update_opts, 'cutoff': 0.0})", "expect-fail"),
+    (_DM, "DMRG._update_local_state", "}[self.bsz](i, **update_opts)", "}[self.bsz](i, **{**update_opts, 'cutoff': 0.0})", "expect-fail"),
     (_DM, "DMRG.sweep", "return tot_ens[-1]", "return tot_ens[0]", "expect-fail"),
     (_DM, "DMRG.sweep", "return tot_ens[-1]", "return local_ens[-1]", "expect-fail"),
     (_DM, "DMRG.sweep", "](bra=self._b)", "]()", "expect-fail"),
